@@ -18,7 +18,7 @@ use typecheck::{ConstraintReason, PotentialType, SolvedType, TypeKey, TypeVar, s
 use utils::hash::{HashMap, HashSet};
 use utils::id_set::IdSet;
 mod error;
-mod pat_exhaustiveness;
+pub(crate) mod pat_exhaustiveness;
 mod resolve;
 pub(crate) mod typecheck;
 use codespan_reporting::diagnostic::Diagnostic;
